@@ -329,11 +329,11 @@ theorem run_append (p : Params) (pre : List Rec) (r : Rec) (post : List Rec) (st
 structure Inv (p : Params) (st : State) : Prop where
   out_ok : ∀ k b, st.blocks k = some b → b.out = pred p.cal b.cfg b.last
   last_le : ∀ k b, st.blocks k = some b → b.last ≤ st.now
-  dl_le : ∀ k b dl, st.blocks k = some b → b.stale = some dl → dl ≤ st.lastJump + p.bound
-  jump_le : st.lastJump ≤ st.now
+  dl_le : ∀ k b dl, st.blocks k = some b → b.stale = some dl → dl ≤ st.graceEnd
+  grace_le : st.graceEnd ≤ st.now + p.bound
 
 theorem inv_init (p : Params) : Inv p {} := by
-  refine ⟨?_, ?_, ?_, Nat.le_refl _⟩
+  refine ⟨?_, ?_, ?_, Nat.zero_le _⟩
   · intro k b h; cases h
   · intro k b h; cases h
   · intro k b dl h; cases h
@@ -377,7 +377,7 @@ theorem inv_apply (p : Params) (st : State) (r : Rec) (hi : Inv p st) (hv : verd
               exact hi.dl_le blk b0 dl hold hs
           · simp only [hk, ↓reduceIte] at hb
             exact hi.dl_le k b dl hb hs
-        · have := hi.jump_le
+        · have := hi.grace_le
           simp only [apply]; omega
   | recalc blk read out =>
     simp only [verdict] at hv
@@ -414,7 +414,7 @@ theorem inv_apply (p : Params) (st : State) (r : Rec) (hi : Inv p st) (hv : verd
               simp at hs
             · simp only [hk, ↓reduceIte] at hb
               exact hi.dl_le k b dl hb hs
-          · have := hi.jump_le
+          · have := hi.grace_le
             simp only [apply, hold]; omega
   | jump t delta =>
     simp only [verdict] at hv
@@ -451,11 +451,11 @@ theorem inv_apply (p : Params) (st : State) (r : Rec) (hi : Inv p st) (hv : verd
           | some d0 =>
             simp only [hst] at hs
             have := hi.dl_le k b0 d0 hold hst
-            have := hi.jump_le
+            have := hi.grace_le
             by_cases hd : t ≤ d0
             · simp only [hd, ↓reduceIte] at hs; omega
             · simp only [hd, ↓reduceIte] at hs; omega
-      · simp only [apply]; exact Nat.le_refl _
+      · simp only [apply]; omega
   | probe t blk out =>
     simp only [verdict] at hv
     cases hold : st.blocks blk with
@@ -470,8 +470,61 @@ theorem inv_apply (p : Params) (st : State) (r : Rec) (hi : Inv p st) (hv : verd
           have := hi.last_le k b hb
           simp only [apply]; omega
         · intro k b dl hb hs; exact hi.dl_le k b dl hb hs
-        · have := hi.jump_le
+        · have := hi.grace_le
           simp only [apply]; omega
+  | late t delta =>
+    simp only [verdict] at hv
+    by_cases h1 : t < st.now ∨ p.bound < delta + p.lam
+    · simp [h1] at hv
+    · have hg := hi.grace_le
+      refine ⟨?_, ?_, ?_, ?_⟩
+      · intro k b hb
+        simp only [apply] at hb
+        cases hold : st.blocks k with
+        | none => simp [hold] at hb
+        | some b0 =>
+          simp only [hold, Option.map_some, Option.some.injEq] at hb
+          subst hb
+          exact hi.out_ok k b0 hold
+      · intro k b hb
+        simp only [apply] at hb ⊢
+        cases hold : st.blocks k with
+        | none => simp [hold] at hb
+        | some b0 =>
+          simp only [hold, Option.map_some, Option.some.injEq] at hb
+          subst hb
+          have := hi.last_le k b0 hold
+          simp only [markLate]; omega
+      · intro k b dl hb hs
+        simp only [apply] at hb ⊢
+        cases hold : st.blocks k with
+        | none => simp [hold] at hb
+        | some b0 =>
+          simp only [hold, Option.map_some, Option.some.injEq] at hb
+          subst hb
+          simp only [markLate, Option.some.injEq] at hs
+          cases hst : b0.stale with
+          | none =>
+            simp only [hst] at hs
+            by_cases hgg : st.graceEnd ≤ t + delta + p.lam
+            · simp only [hgg, ↓reduceIte]; omega
+            · simp only [hgg, ↓reduceIte]; omega
+          | some d0 =>
+            simp only [hst] at hs
+            have := hi.dl_le k b0 d0 hold hst
+            by_cases hgg : st.graceEnd ≤ t + delta + p.lam
+            · simp only [hgg, ↓reduceIte]
+              by_cases hd : t + delta + p.lam ≤ d0
+              · simp only [hd, ↓reduceIte] at hs; omega
+              · simp only [hd, ↓reduceIte] at hs; omega
+            · simp only [hgg, ↓reduceIte]
+              by_cases hd : t + delta + p.lam ≤ d0
+              · simp only [hd, ↓reduceIte] at hs; omega
+              · simp only [hd, ↓reduceIte] at hs; omega
+      · simp only [apply]
+        by_cases hgg : st.graceEnd ≤ t + delta + p.lam
+        · simp only [hgg, ↓reduceIte]; omega
+        · simp only [hgg, ↓reduceIte]; omega
 
 theorem inv_run (p : Params) (tr : List Rec) (st s : State) (hi : Inv p st) (h : run p st tr = some s) :
     Inv p s := by
@@ -495,13 +548,14 @@ theorem probe_facts (p : Params) (pre post : List Rec) (t blk : Nat) (out : Bool
     obtain ⟨h1, h2⟩ := run_append p pre _ post {} s hr
     exact ⟨inv_run p pre {} _ (inv_init p) h1, h2⟩
 
-/-- records other than jumps do not touch the instant of the latest jump -/
+/-- records other than clock jumps and injected delays do not move the end of the grace period -/
 def Rec.isJump : Rec → Bool
   | .jump _ _ => true
+  | .late _ _ => true
   | _ => false
 
-theorem lastJump_foldl (p : Params) (mid : List Rec) (st : State)
-    (h : ∀ r ∈ mid, r.isJump = false) : (mid.foldl (apply p) st).lastJump = st.lastJump := by
+theorem graceEnd_foldl (p : Params) (mid : List Rec) (st : State)
+    (h : ∀ r ∈ mid, r.isJump = false) : (mid.foldl (apply p) st).graceEnd = st.graceEnd := by
   induction mid generalizing st with
   | nil => rfl
   | cons x xs ih =>
@@ -510,6 +564,7 @@ theorem lastJump_foldl (p : Params) (mid : List Rec) (st : State)
     have hx := h x (by simp)
     cases x with
     | jump t d => simp [Rec.isJump] at hx
+    | late t d => simp [Rec.isJump] at hx
     | config blk cfg read out => rfl
     | recalc blk read out =>
       simp only [apply]
